@@ -15,6 +15,7 @@ U32 = (1 << 32) - 1
 GFIELDS = ["slot", "status", "ptype", "lba", "part_blocks", "total", "use16", "spc", "reserved", "nfats",
            "fat_size", "root_entries", "root_cluster", "fs_info", "backup_boot", "media", "hidden",
            "info_free", "info_next", "label"]
+NOFIT = 'err FormatError "Volume does not fit the device"'
 SHALLOW = ('err FormatError "Invalid MBR signature"', "err NoSuchVolume", 'err FormatError "Invalid partition status"',
            'err FormatError "Partition type not supported"')
 
@@ -240,11 +241,12 @@ def put(b, off, w, v):
 
 
 class Case:
-    __slots__ = ("cls", "blocks", "slot", "limit", "expect", "read_expect", "descr", "g")
+    __slots__ = ("cls", "blocks", "slot", "limit", "expect", "read_expect", "descr", "g", "known_limit")
 
     def __init__(self, cls, blocks, slot, descr, limit=None, expect=None, read_expect=None, g=None):
         self.cls, self.blocks, self.slot, self.descr = cls, blocks, slot, descr
         self.limit, self.expect, self.read_expect, self.g = limit, expect, read_expect, g
+        self.known_limit = False
 
     def cmds(self, with_read):
         out = ["RESET"]
@@ -497,6 +499,13 @@ def check(run, replay=None):
         r = ginfo[id(g)]
         if not r["valid"]:
             machinery.append("generator produced a geometry the spec calls invalid: " + gcmd(g)); continue
+        if g["lba"] + g["total"] == 1 << 32:
+            # known class ends_at_limit (C15_limit_refused): valid for the specification, refused by the crate
+            if r["model"] != NOFIT:
+                machinery.append("model does not refuse a volume ending at block 2^32 (contradicts C15_limit_refused): " + gcmd(g)); continue
+            c = Case(cls + "_known_limit", copy_blocks(r["blocks"]), g["slot"], gcmd(g))
+            c.known_limit = True
+            cases.append(c); continue
         if r["model"] != r["expect"]:
             machinery.append("model mount(format g) differs from layout g (contradicts C15_valid): " + gcmd(g)); continue
         bl = copy_blocks(r["blocks"])
@@ -543,6 +552,8 @@ def check(run, replay=None):
             evaluations += len(r)
             if "panic" in r:
                 viol_panic.append((c, prof, r)); continue
+            if getattr(c, "known_limit", False) and r[0] == NOFIT:
+                run.known("ends_at_limit", "")
             if c.expect is not None:
                 if r[0] != c.expect:
                     viol_spec.append((c, prof, r)); continue
